@@ -241,7 +241,9 @@ func (snm *shardNotificationsManager) getNotifications() error {
 	}
 
 	var startOffsetExclusive *int64
-	if snm.lastOffsetReceived >= 0 {
+	if snm.initialized {
+		// Resume from the position that was given by the server. On a shard
+		// without any committed entry that position is -1
 		startOffsetExclusive = &snm.lastOffsetReceived
 	}
 
